@@ -13,4 +13,11 @@ def run(ctx):
 
 
 def async_part(ctx):
-    pass
+    # goroutine-backed streams (Batch, Merge, Pipe, MapStream): the same fault / stop-point / Close-timing space is
+    # explored by environment schedules in bubbles; their monitors carry the error-surfacing and ownership rules
+    from bubblecommon import bubble_tv
+    n = ctx.pick(100, 1000)
+    bubble_tv(ctx, "TestBatch", "batch", "Trace_Batch", "tv.cfg", "batch", {"n": n, "reps": 2}, silent=False)
+    bubble_tv(ctx, "TestMerge", "merge", "Trace_Merge", "tv.cfg", "merge", {"n": n, "reps": 1}, silent=False)
+    bubble_tv(ctx, "TestMapOrd", "parallel", "Trace_MapOrd", "tv.cfg", "mapstream", {"n": 2 * n}, silent=False)
+    bubble_tv(ctx, "TestPipe", "pipe", "Trace_Pipe", "tv.cfg", "pipe", {"n": n, "reps": 2})
